@@ -35,22 +35,22 @@ func (g *c19gen) broken(name, why string) {
 	fmt.Fprintf(&g.sb, "\n-- BROKEN-TIE %s: %s\n", name, why)
 }
 
-func leanStr(s string) string { return fmt.Sprintf("%q", s) }
+func c19LeanStr(s string) string { return fmt.Sprintf("%q", s) }
 
-func leanStrList(l []string) string {
+func c19LeanStrList(l []string) string {
 	q := make([]string, len(l))
 	for i, s := range l {
-		q[i] = leanStr(s)
+		q[i] = c19LeanStr(s)
 	}
 	return "[" + strings.Join(q, ", ") + "]"
 }
 
 func (g *c19gen) defStrList(doc, name string, l []string) {
-	fmt.Fprintf(&g.sb, "\n/-- %s -/\ndef %s : List String := %s\n", doc, name, leanStrList(l))
+	fmt.Fprintf(&g.sb, "\n/-- %s -/\ndef %s : List String := %s\n", doc, name, c19LeanStrList(l))
 }
 
 func (g *c19gen) defStr(doc, name, v string) {
-	fmt.Fprintf(&g.sb, "\n/-- %s -/\ndef %s : String := %s\n", doc, name, leanStr(v))
+	fmt.Fprintf(&g.sb, "\n/-- %s -/\ndef %s : String := %s\n", doc, name, c19LeanStr(v))
 }
 
 func (g *c19gen) defTuples(doc, name, typ string, rows [][]string) {
@@ -61,14 +61,14 @@ func (g *c19gen) defTuples(doc, name, typ string, rows [][]string) {
 		}
 		q := make([]string, len(r))
 		for j, s := range r {
-			q[j] = leanStr(s)
+			q[j] = c19LeanStr(s)
 		}
 		g.sb.WriteString("\n  (" + strings.Join(q, ", ") + ")")
 	}
 	g.sb.WriteString("\n]\n")
 }
 
-func findFunc(f *ast.File, name string) *ast.FuncDecl {
+func c19FindFunc(f *ast.File, name string) *ast.FuncDecl {
 	for _, d := range f.Decls {
 		if fd, ok := d.(*ast.FuncDecl); ok && fd.Body != nil && funcName(fd) == name {
 			return fd
@@ -199,7 +199,7 @@ func genFactsC19(repo string, consts []constKV) string {
 
 	// ---- registry.go
 	if f := parse("pkg/metrics/registry.go"); f != nil {
-		if fd := findFunc(f, "RegisterMetric"); fd == nil {
+		if fd := c19FindFunc(f, "RegisterMetric"); fd == nil {
 			g.broken("registerMetric", "function RegisterMetric not found")
 		} else {
 			var slotCalls, groupCalls []string
@@ -254,7 +254,7 @@ func genFactsC19(repo string, consts []constKV) string {
 
 	// ---- counter.go
 	if f := parse("pkg/metrics/counter.go"); f != nil {
-		if fd := findFunc(f, "Counter.rollUp"); fd == nil {
+		if fd := c19FindFunc(f, "Counter.rollUp"); fd == nil {
 			g.broken("rollUpPasses", "Counter.rollUp not found")
 		} else {
 			var passes [][]string
@@ -291,7 +291,7 @@ func genFactsC19(repo string, consts []constKV) string {
 				g.defTuples("the `doRollUp(from, to, rollUpDuration, truncateDuration)` calls of `Counter.rollUp`, in order", "rollUpPasses", "String × String × String × String", passes)
 			}
 		}
-		if fd := findFunc(f, "Counter.doRollUp"); fd == nil {
+		if fd := c19FindFunc(f, "Counter.doRollUp"); fd == nil {
 			g.broken("doRollUpConds", "Counter.doRollUp not found")
 		} else {
 			var conds []string
@@ -313,7 +313,7 @@ func genFactsC19(repo string, consts []constKV) string {
 			})
 			g.defStrList("the `time.Since` / `Truncate` calls of `Counter.doRollUp`, in source order", "doRollUpTimeCalls", trunc)
 		}
-		if fd := findFunc(f, "Counter.DeltaBetween"); fd == nil {
+		if fd := c19FindFunc(f, "Counter.DeltaBetween"); fd == nil {
 			g.broken("deltaBetween", "Counter.DeltaBetween not found")
 		} else {
 			var preds, loops, panics []string
@@ -346,7 +346,7 @@ func genFactsC19(repo string, consts []constKV) string {
 
 	// ---- session.go
 	if f := parse("pkg/protocol/session.go"); f != nil {
-		if fd := findFunc(f, "Session.Read"); fd == nil {
+		if fd := c19FindFunc(f, "Session.Read"); fd == nil {
 			g.broken("readReturns", "Session.Read not found")
 		} else {
 			g.defTuples("every `return` of `Session.Read` (closures excluded): (results, is the statement directly before it the `if` that adds to s.uploadBytes, enclosing if-conditions)", "readReturns", "String × String × String", g.returnsOf(fd.Body, "s.uploadBytes"))
@@ -373,7 +373,7 @@ func genFactsC19(repo string, consts []constKV) string {
 			g.defTuples("every `copy(dst, src)` of `Session.Read`", "readCopies", "String × String", copies)
 			g.defStrList("every assignment to `n` in `Session.Read`", "readNUpdates", nUpdates)
 		}
-		if fd := findFunc(f, "Session.Write"); fd == nil {
+		if fd := c19FindFunc(f, "Session.Write"); fd == nil {
 			g.broken("writeReturns", "Session.Write not found")
 		} else {
 			g.defTuples("every `return` of `Session.Write`: (results, is the statement directly before it the `if` that adds to s.downloadBytes, enclosing if-conditions)", "writeReturns", "String × String × String", g.returnsOf(fd.Body, "s.downloadBytes"))
@@ -387,7 +387,7 @@ func genFactsC19(repo string, consts []constKV) string {
 			})
 			g.defStrList("every assignment to `n` in `Session.Write`", "writeNUpdates", nUpdates)
 		}
-		if fd := findFunc(f, "Session.inputData"); fd == nil {
+		if fd := c19FindFunc(f, "Session.inputData"); fd == nil {
 			g.broken("inputDataCalls", "Session.inputData not found")
 		} else {
 			interesting := map[string]bool{"s.checkQuota": true, "s.Close": true, "s.recvQueue.Insert": true, "s.recvBuf.Insert": true,
@@ -443,7 +443,7 @@ func genFactsC19(repo string, consts []constKV) string {
 			}
 			g.defStr("the condition of the FIRST statement of `Session.inputData` (an `if`)", "inputDataFirstIf", first)
 		}
-		if fd := findFunc(f, "Session.checkQuota"); fd == nil {
+		if fd := c19FindFunc(f, "Session.checkQuota"); fd == nil {
 			g.broken("checkQuota", "Session.checkQuota not found")
 		} else {
 			var conds []string
@@ -466,7 +466,7 @@ func genFactsC19(repo string, consts []constKV) string {
 			g.defStrList("conditions of the `if` statements of `Session.checkQuota`, in source order", "checkQuotaConds", conds)
 			g.defStrList("the statements of the `for _, quota := range policy.Quotas()` body", "checkQuotaLoop", loopBody)
 		}
-		if fd := findFunc(f, "Session.input"); fd == nil {
+		if fd := c19FindFunc(f, "Session.input"); fd == nil {
 			g.broken("sessionMetricRegistrations", "Session.input not found")
 		} else {
 			var regs [][]string
